@@ -406,6 +406,63 @@ func c17Context(r *harness.Run, tier string) {
 	}
 }
 
+// c17ScaledContext: context independence along the size dimension. Every scaled program (each
+// statement template repeated K times, each block kind nested K deep, switches with K cases) is
+// compiled alone and next to each of a few large and small neighbour scripts, before and after it.
+func c17ScaledContext(r *harness.Run, tier string) {
+	xs := scaledPrograms(tier)
+	var neighbours []string
+	for _, p := range scaledPrograms(tier) {
+		for _, want := range []string{"template 1 x 40 ", "template 5 x 40 ", "template 10 x 40 ", "block kind 0 nested 40 ", "block kind 7 nested 40 ", "switch with 100 cases, variant 1", "switch with 5 cases, variant 0", "template 0 x 4 "} {
+			if strings.Contains(p.Desc+" ", want) {
+				sc := cloneScript(p.Script)
+				sc.Name = "SY"
+				neighbours = append(neighbours, model.Print([]*model.Script{sc}))
+			}
+		}
+	}
+	r.Set("scaled_context_neighbours", len(neighbours))
+	owned := regexp.MustCompile(`^(SX|SX_\d+|[LM]\d+)$`)
+	st := c17Stmt{name: "SX", owned: owned}
+	done := r.Parallel(uint64(len(xs)), func(w int, i uint64) {
+		sc := cloneScript(xs[i].Script)
+		sc.Name = "SX"
+		xsrc := model.Print([]*model.Script{sc})
+		for _, opt := range []bool{true, false} {
+			res := comp.Compile(xsrc, comp.Opts{Optimize: opt})
+			if res.Err != nil || res.Panic != "" {
+				continue
+			}
+			want := c17Section(res.Out, st)
+			for ni, nb := range neighbours {
+				for pos := 0; pos < 2; pos++ {
+					src := nb + "\n" + xsrc
+					if pos == 1 {
+						src = xsrc + "\n" + nb
+					}
+					res2 := comp.Compile(src, comp.Opts{Optimize: opt})
+					r.Add("evaluations", 1)
+					r.Add("nontrivial", 1)
+					r.Add("scaled_contexts", 1)
+					if res2.Err != nil || res2.Panic != "" {
+						r.Report(harness.Violation{Sig: "C17:scaled-context:rejected", Summary: fmt.Sprintf("file rejected: %v %s (%s next to neighbour %d)", res2.Err, firstLine(res2.Panic), xs[i].Desc, ni), Replay: map[string]interface{}{"source": src}})
+						continue
+					}
+					if got := c17Section(res2.Out, st); got != want {
+						s2 := src
+						r.Report(harness.Violation{Sig: "C17:scaled-context", Summary: fmt.Sprintf("the code emitted for a script (%s) depends on a neighbouring script (neighbour %d, position %d, optimize=%v): %s", xs[i].Desc, ni, pos, opt, firstDiff(got, want)),
+							Replay:  map[string]interface{}{"source": src, "statement": "SX", "optimize": opt, "alone": want, "in_context": got},
+							Recheck: func() bool { return c17Section(comp.Compile(s2, comp.Opts{Optimize: opt}).Out, st) != want }})
+					}
+				}
+			}
+		}
+	})
+	if !done {
+		r.NotExhaustive("scaled context programs not completed")
+	}
+}
+
 // ---------------------------------------------------------------------------
 
 func runC17(tier string) int {
@@ -518,6 +575,7 @@ func runC17(tier string) int {
 
 	// (3) context independence
 	c17Context(r, tier)
+	c17ScaledContext(r, tier)
 
 	schedWG.Wait()
 	if schedErr != "" {
